@@ -281,8 +281,10 @@ def m_rejected(tr):
     if not tr.raised or tr.a[0] == "bar":
         return bad
     b, a = tr.before, tr.after
-    if b.bal != a.bal:
-        diff = {s: (b.bal.get(s), a.bal.get(s)) for s in set(b.bal) | set(a.bal) if b.bal.get(s) != a.bal.get(s)}
+    zero = (ZERO, ZERO, ZERO, ZERO)
+    # a symbol with all-zero amounts and a symbol that is not listed are the same balances
+    if {s: v for s, v in b.bal.items() if v != zero} != {s: v for s, v in a.bal.items() if v != zero}:
+        diff = {s: (b.bal.get(s), a.bal.get(s)) for s in set(b.bal) | set(a.bal) if b.bal.get(s, zero) != a.bal.get(s, zero)}
         bad.append(("balances-changed", f"failed {tr.a[0]} ({tr.raised[1]}: {tr.raised[2]}) changed balances {diff}"))
     if {k: info_tuple(v) for k, v in b.orders.items()} != {k: info_tuple(v) for k, v in a.orders.items()}:
         bad.append(("orders-changed", f"failed {tr.a[0]} ({tr.raised[1]}: {tr.raised[2]}) changed an order / left one behind"))
@@ -397,7 +399,8 @@ def m_liquidity_precision(tr):
 def prices_of(w):
     pr = {"USD": D(1)}
     for pi, c in w.close.items():
-        pr[PAIRS[pi].base_symbol] = c
+        if PAIRS[pi].quote_symbol == "USD":  # cross pairs do not give a USD price
+            pr[PAIRS[pi].base_symbol] = c
     return pr
 
 
